@@ -1,5 +1,6 @@
 #!/bin/bash
 # usage: verify_seed.sh <dir with patch.diff and seed_demo.rs>
+# (set SEED_PROFILE=--release for demonstrations that only show in the release profile)
 # Confirms on a scratch copy of /repo: (1) the patched tree compiles and the existing suite passes,
 # (2) the demonstration fails with the patch, (3) it passes without it. The copy is removed afterwards.
 d=$(realpath "$1"); tmp=$(mktemp -d -p /tmp fpdec-seed-XXXX); trap 'rm -rf "$tmp"' EXIT
@@ -9,7 +10,7 @@ patch -p1 -s -i "$d/patch.diff" || { echo "RESULT patch-does-not-apply"; exit 1;
 export CARGO_NET_OFFLINE=true CARGO_TARGET_DIR="$tmp/target"
 suite=$(cargo test --workspace --offline --no-fail-fast 2>&1 | grep -E "^test result" | awk '{p+=$4; f+=$6} END {print p" passed "f" failed"}')
 cp "$d/seed_demo.rs" tests/seed_demo.rs
-with=$(cargo test --offline --test seed_demo 2>&1 | grep -E "^test result" | head -1)
+with=$(cargo test $SEED_PROFILE --offline --test seed_demo 2>&1 | grep -E "^test result" | head -1)
 patch -p1 -R -s -i "$d/patch.diff"
-without=$(cargo test --offline --test seed_demo 2>&1 | grep -E "^test result" | head -1)
+without=$(cargo test $SEED_PROFILE --offline --test seed_demo 2>&1 | grep -E "^test result" | head -1)
 echo "RESULT suite-with-patch: $suite | demo-with-patch: $with | demo-without-patch: $without"
